@@ -24,6 +24,9 @@ type callCase struct {
 	Config     clientConfig `json:"config"`
 	Call       dyn.Call     `json:"call"`
 	Outcome    dyn.Outcome  `json:"outcome"`
+	// AfterFailedResponse: the call is preceded, on the same server, by an action call whose result cannot be serialised
+	// (index into poisonableActions()+1; 0 = none): an earlier failed exchange must not leak into this one
+	AfterFailedResponse int `json:"after_failed_response,omitempty"`
 }
 
 // ---------------------------------------------------------------------------------------------
@@ -583,6 +586,9 @@ func callLabels(mi *dyn.MethodInfo, c *callCase) (labels []string, nontrivial bo
 		kind = mi.M.Name
 	}
 	labels = append(labels, "method="+strings.ToLower(kind), "mount="+c.Mount, "transport="+c.Config.Transport, fmt.Sprintf("threshold=%d", c.Config.Threshold))
+	if c.AfterFailedResponse > 0 {
+		labels = append(labels, "after_failed_response")
+	}
 	if len(mi.R.Segments) > 1 {
 		labels = append(labels, "sub_resource")
 		nontrivial = true
@@ -648,6 +654,16 @@ func checkCall(rec *stats.Recorder, c callCase) (msg string, known string) {
 	rec.Case(labels...)
 	if nontrivial {
 		rec.NonTrivial(c.Call.Method, hx.J(c.Call)+hx.J(c.Config)+c.Mount, func() any { return c })
+	}
+	if pa := poisonableActions(); c.AfterFailedResponse > 0 && len(pa) > 0 {
+		pmi := pa[(c.AfterFailedResponse-1)%len(pa)]
+		bad := validValue(*pmi.M.Return)
+		poison(*pmi.M.Return, bad)
+		pc := dyn.Call{Resource: pmi.R.Namespace, Method: pmi.Func}
+		if pmi.Params != nil {
+			pc.Params = validValue(pmi.ParamsType())
+		}
+		hx.Try(func() { _, _, _, _, _ = w.do(c.Config, &pc, &dyn.Outcome{Action: bad}, nil) })
 	}
 	var got *dyn.Outcome
 	var err error
@@ -721,6 +737,9 @@ func TestC02Calls(t *testing.T) {
 		}
 		c.Call = genCall(rt, g, mi)
 		c.Outcome = genOutcome(rt, g, mi, &c.Call)
+		if rapid.IntRange(0, 7).Draw(rt, "after_failed_response") == 0 {
+			c.AfterFailedResponse = 1 + rapid.IntRange(0, 7).Draw(rt, "which_failure")
+		}
 		msg, known := checkCall(rec, c)
 		if known != "" {
 			rec.Known(known, kf.What(known), c)
